@@ -6,6 +6,8 @@ T=${1:-quick}
 git -C /repo status --porcelain | grep -v '^??' | grep . && { echo "/repo not clean"; exit 2; }
 fail=0
 for d in /verif/seeded/S*; do
+  # seeded changes recorded as lying outside the claimed bounds (DESIGN.md 11.6 (m)): reported, not counted as failures
+  if python3 -c "import json,sys;sys.exit(0 if 'expected_regress' in json.load(open('$d/meta.json')) else 1)"; then echo "$(basename $d): known miss (outside the claim), skipped"; continue; fi
   prop=$(python3 -c "import json;print(json.load(open('$d/meta.json'))['breaks_property'])")
   if ! git -C /repo apply --check $d/patch.diff 2>/dev/null; then echo "$(basename $d): patch no longer applies"; continue; fi
   git -C /repo apply $d/patch.diff
